@@ -18,6 +18,8 @@ pub struct Cfg {
 pub enum Ev {
     /// one byte on the wire; `skip` = the clean twin does not get it (real-time byte or foreign-channel message)
     Byte(u8, bool),
+    /// the same byte n times in a row (a sequencer idling on MIDI clock / active sensing)
+    Burst(u8, u32, bool),
     PollRising,
     PollFalling,
     /// 0 last, 1 high, 2 low
@@ -398,6 +400,216 @@ fn fresh(ch: u8, priority: u8, retrigger: bool) -> (MonoMidiReceiver, MonoMidiRe
     (rx, twin, m)
 }
 
+/// one byte off the wire into the real receiver, the clean twin, the decoder/voice model and the oracles
+fn byte_step(ex: &mut Exec, b: u8, skip: bool, ctx: &mut Ctx) {
+                ctx.steps += 1;
+        ctx.sim_ns += 320_000; // 31 250 baud, 10 bits per byte
+        let pre_kind = ex.m.dec.kind();
+        if b >= 0xF8 && (ex.m.dec.mid_message() || (ex.m.dec.status != 0 && pre_kind == 1)) {
+            ctx.probe(P_RT_INSIDE_MESSAGE);
+        }
+        if b < 0x80 && ex.m.dec.status == 0 {
+            ctx.probe(P_DATA_WITHOUT_STATUS);
+        }
+        let g0 = ex.rx.gate();
+        real!(ex.rx.parse(b));
+        let g1 = ex.rx.gate();
+        let rising_before = ex.m.rising;
+        let falling_before = ex.m.falling;
+        let completed = ex.m.dec.feed(b);
+        let was_fresh = ex.m.dec.fresh;
+        if completed.is_some() {
+            ex.m.dec.fresh = false;
+        }
+        if let Some(msg) = completed {
+            let m = &mut ex.m;
+            if msg.status & 0x0F == m.ch {
+                match msg.status >> 4 {
+                    0x9 if msg.d2 > 0 => {
+                        if m.held.contains(&msg.d1) {
+                            ctx.fault(F_DUP_NOTE_ON);
+                        }
+                        let was_cap = m.cap_exceeded;
+                        m.note_on(msg.d1, msg.d2);
+                        if m.cap_exceeded && !was_cap {
+                            ctx.probe(P_CAP_EXCEEDED);
+                            ctx.suspended += 1;
+                        }
+                        if m.held.len() >= 8 {
+                            ctx.probe(P_HELD_GE_8);
+                        }
+                        if falling_before {
+                            ctx.probe(P_EDGE_OVERWRITTEN_BEFORE_READ);
+                        }
+                    }
+                    0x8 | 0x9 => {
+                        if msg.status >> 4 == 0x9 {
+                            ctx.probe(P_VEL0_NOTE_OFF);
+                        }
+                        if !m.held.contains(&msg.d1) {
+                            ctx.fault(F_STRAY_NOTE_OFF);
+                            if !m.gate {
+                                ctx.probe(P_STRAY_NOTE_OFF_GATE_LOW);
+                            }
+                        } else if m.held.last() != Some(&msg.d1) {
+                            ctx.probe(P_RELEASE_OUT_OF_ORDER);
+                        }
+                        m.note_off(msg.d1);
+                        if rising_before && !m.rising {
+                            ctx.probe(P_EDGE_OVERWRITTEN_BEFORE_READ);
+                        }
+                    }
+                    0xE => {
+                        m.bend = Some(((msg.d2 as u16) << 7) | msg.d1 as u16);
+                        ctx.probe(P_BEND_ON_CHANNEL);
+                        ctx.cover(1 << 20 | m.bend.unwrap_or(0) as u32);
+                    }
+                    0xB => {
+                        ctx.probe(P_CC_ON_CHANNEL);
+                        ctx.cover((msg.d1 as u32) << 7 | msg.d2 as u32);
+                        match msg.d1 {
+                            1 => m.cc[0] = Some(msg.d2),
+                            7 => m.cc[1] = Some(msg.d2),
+                            71 => m.cc[2] = Some(msg.d2),
+                            74 => m.cc[3] = Some(msg.d2),
+                            5 => m.cc[4] = Some(msg.d2),
+                            65 => m.porta_on = Some(msg.d2 >= 64),
+                            64 => m.sustain_on = Some(msg.d2 >= 64),
+                            121 => {
+                                ctx.probe(P_RESET_CONTROLLERS);
+                                m.cc = [None; 5];
+                                m.bend = None;
+                                m.porta_on = None;
+                                m.sustain_on = None;
+                            }
+                            123 => {
+                                ctx.fault(F_ALL_NOTES_OFF);
+                                if m.gate {
+                                    ctx.probe(P_ANO_WHILE_GATE_HIGH);
+                                }
+                                m.all_notes_off();
+                            }
+                            _ => {}
+                        }
+                    }
+                    _ => {}
+                }
+            } else {
+                ctx.probe(P_MSG_ON_OTHER_CHANNEL);
+            }
+        }
+        if let Some(msg) = completed {
+            if msg.status & 0x0F == ex.m.ch && msg.status >> 4 == 0x9 && msg.d2 > 0 {
+                if ex.m.retrigger || (!g0 && g1) {
+                    ex.lr = true;
+                }
+                ex.lf = false;
+            }
+        }
+        if g0 && !g1 {
+            ex.lf = true;
+            ex.lr = false;
+        }
+        ex.compare(ctx, completed, b);
+        // history for C18
+        if let Some(msg) = completed {
+            if msg.status & 0x0F == ex.m.ch {
+                if msg.status >> 4 == 0xB {
+                    for i in 0..5 {
+                        if msg.d1 == CC_NUMS[i] {
+                            let got = [
+                                ex.rx.mod_wheel(),
+                                ex.rx.volume(),
+                                ex.rx.vcf_cutoff(),
+                                ex.rx.vcf_resonance(),
+                                ex.rx.portamento_time(),
+                            ][i];
+                            ex.cc_hist[i][msg.d2 as usize] = Some(got.to_bits());
+                        }
+                    }
+                } else if msg.status >> 4 == 0xE && ex.bend_hist.len() < 512 {
+                    ex.bend_hist.push((ex.m.bend.unwrap_or(8192), ex.rx.pitch_bend().to_bits()));
+                }
+            }
+        }
+        // ---------------- clean twin
+        if ex.twin_ok {
+            if skip {
+                if b >= 0xF8 {
+                    // always transparent
+                } else if ex.foreign_left > 0 && b < 0x80 {
+                    ex.foreign_left -= 1;
+                    if ex.foreign_left == 0 {
+                        ex.need_status = true;
+                    }
+                } else if (0x80..0xF0).contains(&b)
+                    && (b & 0x0F) != ex.m.ch
+                    && ex.foreign_left == 0
+                    && ex.twin_dec.d1.is_none()
+                {
+                    ex.foreign_left = if matches!(b >> 4, 0xC | 0xD) { 1 } else { 2 };
+                } else {
+                    ex.twin_ok = false;
+                }
+            } else {
+                if ex.foreign_left > 0 && b < 0xF8 {
+                    ex.twin_ok = false;
+                }
+                if ex.need_status && b < 0xF8 {
+                    if b >= 0x80 {
+                        ex.need_status = false;
+                    } else {
+                        ex.twin_ok = false;
+                    }
+                }
+                if ex.twin_ok {
+                    real!(ex.twin.parse(b));
+                    ex.twin_dec.feed(b);
+                }
+            }
+            if !ex.twin_ok {
+                ctx.probe(P_TWIN_DESYNC);
+                ctx.suspended += 1;
+            } else if ex.foreign_left == 0 && !ex.need_status {
+                let a = outs(&ex.rx);
+                let t = outs(&ex.twin);
+                ctx.probe(P_TWIN_COMPARISONS);
+                ctx.check(6, "clean_twin_agrees", a == t, || {
+                    format!(
+                        "after byte 0x{:02x}: receiver {:?} differs from the twin that never saw the real-time / foreign-channel bytes {:?}",
+                        b, a, t
+                    )
+                });
+            }
+        }
+        if completed.is_some() && !was_fresh {
+            ctx.probe(P_RUNNING_STATUS_MSG);
+        }
+        let m = &ex.m;
+        let cls = if b >= 0xF8 {
+            0
+        } else if b >= 0xF0 {
+            1
+        } else if b >= 0x80 {
+            if b & 0x0F == m.ch {
+                2 + ((b >> 4) as u32 - 8) % 4
+            } else {
+                6
+            }
+        } else {
+            7
+        };
+        ctx.transition(
+            pre_kind
+                | cls << 2
+                | (m.held.len().min(3) as u32) << 5
+                | (m.gate as u32) << 7
+                | (m.rising as u32) << 8
+                | (m.falling as u32) << 9
+                | (completed.is_some() as u32) << 10,
+        );
+}
+
 impl Engine for MidiEngine {
     const NAME: &'static str = "midi";
     const PROBES: &'static [&'static str] = &[
@@ -467,214 +679,14 @@ impl Engine for MidiEngine {
 
     fn step(ex: &mut Exec, ev: &Ev, ctx: &mut Ctx) {
         match ev {
-            Ev::Byte(b, skip) => {
-                let b = *b;
-                ctx.steps += 1;
-                ctx.sim_ns += 320_000; // 31 250 baud, 10 bits per byte
-                let pre_kind = ex.m.dec.kind();
-                if b >= 0xF8 && (ex.m.dec.mid_message() || (ex.m.dec.status != 0 && pre_kind == 1)) {
-                    ctx.probe(P_RT_INSIDE_MESSAGE);
-                }
-                if b < 0x80 && ex.m.dec.status == 0 {
-                    ctx.probe(P_DATA_WITHOUT_STATUS);
-                }
-                let g0 = ex.rx.gate();
-                real!(ex.rx.parse(b));
-                let g1 = ex.rx.gate();
-                let rising_before = ex.m.rising;
-                let falling_before = ex.m.falling;
-                let completed = ex.m.dec.feed(b);
-                let was_fresh = ex.m.dec.fresh;
-                if completed.is_some() {
-                    ex.m.dec.fresh = false;
-                }
-                if let Some(msg) = completed {
-                    let m = &mut ex.m;
-                    if msg.status & 0x0F == m.ch {
-                        match msg.status >> 4 {
-                            0x9 if msg.d2 > 0 => {
-                                if m.held.contains(&msg.d1) {
-                                    ctx.fault(F_DUP_NOTE_ON);
-                                }
-                                let was_cap = m.cap_exceeded;
-                                m.note_on(msg.d1, msg.d2);
-                                if m.cap_exceeded && !was_cap {
-                                    ctx.probe(P_CAP_EXCEEDED);
-                                    ctx.suspended += 1;
-                                }
-                                if m.held.len() >= 8 {
-                                    ctx.probe(P_HELD_GE_8);
-                                }
-                                if falling_before {
-                                    ctx.probe(P_EDGE_OVERWRITTEN_BEFORE_READ);
-                                }
-                            }
-                            0x8 | 0x9 => {
-                                if msg.status >> 4 == 0x9 {
-                                    ctx.probe(P_VEL0_NOTE_OFF);
-                                }
-                                if !m.held.contains(&msg.d1) {
-                                    ctx.fault(F_STRAY_NOTE_OFF);
-                                    if !m.gate {
-                                        ctx.probe(P_STRAY_NOTE_OFF_GATE_LOW);
-                                    }
-                                } else if m.held.last() != Some(&msg.d1) {
-                                    ctx.probe(P_RELEASE_OUT_OF_ORDER);
-                                }
-                                m.note_off(msg.d1);
-                                if rising_before && !m.rising {
-                                    ctx.probe(P_EDGE_OVERWRITTEN_BEFORE_READ);
-                                }
-                            }
-                            0xE => {
-                                m.bend = Some(((msg.d2 as u16) << 7) | msg.d1 as u16);
-                                ctx.probe(P_BEND_ON_CHANNEL);
-                                ctx.cover(1 << 20 | m.bend.unwrap_or(0) as u32);
-                            }
-                            0xB => {
-                                ctx.probe(P_CC_ON_CHANNEL);
-                                ctx.cover((msg.d1 as u32) << 7 | msg.d2 as u32);
-                                match msg.d1 {
-                                    1 => m.cc[0] = Some(msg.d2),
-                                    7 => m.cc[1] = Some(msg.d2),
-                                    71 => m.cc[2] = Some(msg.d2),
-                                    74 => m.cc[3] = Some(msg.d2),
-                                    5 => m.cc[4] = Some(msg.d2),
-                                    65 => m.porta_on = Some(msg.d2 >= 64),
-                                    64 => m.sustain_on = Some(msg.d2 >= 64),
-                                    121 => {
-                                        ctx.probe(P_RESET_CONTROLLERS);
-                                        m.cc = [None; 5];
-                                        m.bend = None;
-                                        m.porta_on = None;
-                                        m.sustain_on = None;
-                                    }
-                                    123 => {
-                                        ctx.fault(F_ALL_NOTES_OFF);
-                                        if m.gate {
-                                            ctx.probe(P_ANO_WHILE_GATE_HIGH);
-                                        }
-                                        m.all_notes_off();
-                                    }
-                                    _ => {}
-                                }
-                            }
-                            _ => {}
-                        }
-                    } else {
-                        ctx.probe(P_MSG_ON_OTHER_CHANNEL);
+            Ev::Byte(b, skip) => byte_step(ex, *b, *skip, ctx),
+            Ev::Burst(b, n, skip) => {
+                for i in 0..*n {
+                    byte_step(ex, *b, *skip, ctx);
+                    if i & 0xffff == 0xffff {
+                        heartbeat();
                     }
                 }
-                if let Some(msg) = completed {
-                    if msg.status & 0x0F == ex.m.ch && msg.status >> 4 == 0x9 && msg.d2 > 0 {
-                        if ex.m.retrigger || (!g0 && g1) {
-                            ex.lr = true;
-                        }
-                        ex.lf = false;
-                    }
-                }
-                if g0 && !g1 {
-                    ex.lf = true;
-                    ex.lr = false;
-                }
-                ex.compare(ctx, completed, b);
-                // history for C18
-                if let Some(msg) = completed {
-                    if msg.status & 0x0F == ex.m.ch {
-                        if msg.status >> 4 == 0xB {
-                            for i in 0..5 {
-                                if msg.d1 == CC_NUMS[i] {
-                                    let got = [
-                                        ex.rx.mod_wheel(),
-                                        ex.rx.volume(),
-                                        ex.rx.vcf_cutoff(),
-                                        ex.rx.vcf_resonance(),
-                                        ex.rx.portamento_time(),
-                                    ][i];
-                                    ex.cc_hist[i][msg.d2 as usize] = Some(got.to_bits());
-                                }
-                            }
-                        } else if msg.status >> 4 == 0xE && ex.bend_hist.len() < 512 {
-                            ex.bend_hist.push((ex.m.bend.unwrap_or(8192), ex.rx.pitch_bend().to_bits()));
-                        }
-                    }
-                }
-                // ---------------- clean twin
-                if ex.twin_ok {
-                    if *skip {
-                        if b >= 0xF8 {
-                            // always transparent
-                        } else if ex.foreign_left > 0 && b < 0x80 {
-                            ex.foreign_left -= 1;
-                            if ex.foreign_left == 0 {
-                                ex.need_status = true;
-                            }
-                        } else if (0x80..0xF0).contains(&b)
-                            && (b & 0x0F) != ex.m.ch
-                            && ex.foreign_left == 0
-                            && ex.twin_dec.d1.is_none()
-                        {
-                            ex.foreign_left = if matches!(b >> 4, 0xC | 0xD) { 1 } else { 2 };
-                        } else {
-                            ex.twin_ok = false;
-                        }
-                    } else {
-                        if ex.foreign_left > 0 && b < 0xF8 {
-                            ex.twin_ok = false;
-                        }
-                        if ex.need_status && b < 0xF8 {
-                            if b >= 0x80 {
-                                ex.need_status = false;
-                            } else {
-                                ex.twin_ok = false;
-                            }
-                        }
-                        if ex.twin_ok {
-                            real!(ex.twin.parse(b));
-                            ex.twin_dec.feed(b);
-                        }
-                    }
-                    if !ex.twin_ok {
-                        ctx.probe(P_TWIN_DESYNC);
-                        ctx.suspended += 1;
-                    } else if ex.foreign_left == 0 && !ex.need_status {
-                        let a = outs(&ex.rx);
-                        let t = outs(&ex.twin);
-                        ctx.probe(P_TWIN_COMPARISONS);
-                        ctx.check(6, "clean_twin_agrees", a == t, || {
-                            format!(
-                                "after byte 0x{:02x}: receiver {:?} differs from the twin that never saw the real-time / foreign-channel bytes {:?}",
-                                b, a, t
-                            )
-                        });
-                    }
-                }
-                if completed.is_some() && !was_fresh {
-                    ctx.probe(P_RUNNING_STATUS_MSG);
-                }
-                let m = &ex.m;
-                let cls = if b >= 0xF8 {
-                    0
-                } else if b >= 0xF0 {
-                    1
-                } else if b >= 0x80 {
-                    if b & 0x0F == m.ch {
-                        2 + ((b >> 4) as u32 - 8) % 4
-                    } else {
-                        6
-                    }
-                } else {
-                    7
-                };
-                ctx.transition(
-                    pre_kind
-                        | cls << 2
-                        | (m.held.len().min(3) as u32) << 5
-                        | (m.gate as u32) << 7
-                        | (m.rising as u32) << 8
-                        | (m.falling as u32) << 9
-                        | (completed.is_some() as u32) << 10,
-                );
             }
             Ev::PollRising | Ev::PollFalling => {
                 let rising = matches!(ev, Ev::PollRising);
@@ -819,6 +831,13 @@ impl Engine for MidiEngine {
                 }
                 J::Arr(v)
             }
+            Ev::Burst(b, n, skip) => {
+                let mut v = vec![J::s("burst"), J::Str(format!("0x{:02x}", b)), J::u(*n as u64)];
+                if *skip {
+                    v.push(J::s("not_sent_to_clean_twin"));
+                }
+                J::Arr(v)
+            }
             Ev::PollRising => J::Arr(vec![J::s("poll"), J::s("rising")]),
             Ev::PollFalling => J::Arr(vec![J::s("poll"), J::s("falling")]),
             Ev::Priority(p) => J::Arr(vec![J::s("priority"), J::s(["last", "high", "low"][(*p).min(2) as usize])]),
@@ -833,6 +852,11 @@ impl Engine for MidiEngine {
                 let s = arg(a, 0)?.as_str().ok_or("byte must be a hex string")?;
                 let b = u8::from_str_radix(s.trim_start_matches("0x"), 16).map_err(|e| e.to_string())?;
                 Ev::Byte(b, a.get(1).is_some())
+            }
+            "burst" => {
+                let s = arg(a, 0)?.as_str().ok_or("byte must be a hex string")?;
+                let b = u8::from_str_radix(s.trim_start_matches("0x"), 16).map_err(|e| e.to_string())?;
+                Ev::Burst(b, ju64(arg(a, 1)?)? as u32, a.get(2).is_some())
             }
             "poll" => {
                 if arg(a, 0)?.as_str() == Some("rising") {
@@ -866,6 +890,7 @@ impl Engine for MidiEngine {
                 }
                 v
             }
+            Ev::Burst(b, n, skip) if *n > 1 => vec![Ev::Burst(*b, 1, *skip), Ev::Burst(*b, n / 2, *skip), Ev::Burst(*b, n - 1, *skip)],
             Ev::Restart(ch) if *ch != 0 => vec![Ev::Restart(0)],
             _ => Vec::new(),
         }
@@ -904,11 +929,15 @@ impl Wire {
         }
         // a long uninterrupted run of real-time bytes (a sequencer idling on MIDI clock / active sensing)
         if self.p_rt_burst > 0.0 && rng.chance(self.p_rt_burst) {
-            let n = rng.near_pow2(false);
+            let n = rng.near_pow2(true);
             let b = if rng.chance(0.5) { 0xF8 } else { rt_byte(rng) };
-            for _ in 0..n {
-                t.ctx.fault(F_RT_INSERT);
-                t.push(Ev::Byte(if rng.chance(0.9) { b } else { rt_byte(rng) }, true));
+            t.ctx.fault(F_RT_INSERT);
+            if rng.chance(0.6) || n > 2000 {
+                t.push(Ev::Burst(b, n as u32, true));
+            } else {
+                for _ in 0..n {
+                    t.push(Ev::Byte(if rng.chance(0.9) { b } else { rt_byte(rng) }, true));
+                }
             }
         }
     }
@@ -1145,6 +1174,45 @@ fn random_run(rng: &mut Rng, prof: &Profile, sink: &mut Sink<MidiEngine>) {
         }
         w[4] = 0; // no All Notes Off while the drone is held
     }
+    // long-running controller traffic (where 8-bit generation stamps, run counters and the like wrap)
+    if matches!(focus, 18 | 6 | 17) && rng.chance(0.03) && !t.dead {
+        let ch = t.exec().listened();
+        let n = rng.near_pow2(false);
+        match rng.below(3) {
+            0 => {
+                // controllers set, then Reset All Controllers n times with those controllers untouched
+                for cc in [1u8, 7, 71, 74, 5, 65, 64] {
+                    if rng.chance(0.7) {
+                        { let d__ = [cc, 1 + rng.below(127) as u8]; wire.send(rng, &mut t, 0xB0 | ch, &d__) };
+                    }
+                }
+                { let d__ = [rng.below(128) as u8, rng.below(128) as u8]; wire.send(rng, &mut t, 0xE0 | ch, &d__) };
+                for _ in 0..n {
+                    { let d__ = [121, 0]; wire.send(rng, &mut t, 0xB0 | ch, &d__) };
+                }
+            }
+            1 => {
+                // a 7-bit pitch wheel (LSB always 0) for a long time, then a 14-bit one
+                for _ in 0..(n + rng.near_pow2(false)) {
+                    { let d__ = [0, rng.below(128) as u8]; wire.send(rng, &mut t, 0xE0 | ch, &d__) };
+                }
+                for _ in 0..rng.range(4, 40) {
+                    let v = rng.below(16384) as u16;
+                    { let d__ = [(v & 0x7F) as u8, (v >> 7) as u8]; wire.send(rng, &mut t, 0xE0 | ch, &d__) };
+                }
+            }
+            _ => {
+                // one controller swept / repeated many times
+                let cc = *rng.pick(&[1u8, 7, 71, 74, 5, 65, 64]);
+                let same = rng.chance(0.5);
+                let v0 = rng.below(128) as u8;
+                for i in 0..n {
+                    let v = if same { v0 } else { (i % 128) as u8 };
+                    { let d__ = [cc, v]; wire.send(rng, &mut t, 0xB0 | ch, &d__) };
+                }
+            }
+        }
+    }
     for _ in 0..n_msgs {
         if t.dead {
             break;
@@ -1274,6 +1342,27 @@ fn random_run(rng: &mut Rng, prof: &Profile, sink: &mut Sink<MidiEngine>) {
                         { let d__ = [(vv & 0x7F) as u8, (vv >> 7) as u8]; wire.send(rng, &mut t, 0xE0 | ch, &d__) };
                         let cc = *rng.pick(&[1u8, 7, 71, 74, 5]);
                         { let d__ = [cc, *rng.pick(&[0u8, 127, 64])]; wire.send(rng, &mut t, 0xB0 | ch, &d__) };
+                    }
+                    2 if rng.chance(0.5) => {
+                        // universal system-exclusive messages every DAW sends: master volume / balance, MMC transport,
+                        // identity request, GM system on; device id 7F (all) or the listened channel
+                        let dev = if rng.chance(0.5) { 0x7F } else { ch };
+                        let lsb = rng.below(128) as u8;
+                        let msb = rng.below(128) as u8;
+                        let msg: Vec<u8> = match rng.below(6) {
+                            0 => vec![0xF0, 0x7F, dev, 0x04, 0x01, lsb, msb, 0xF7],
+                            1 => vec![0xF0, 0x7F, dev, 0x04, 0x02, lsb, msb, 0xF7],
+                            2 => vec![0xF0, 0x7F, dev, 0x06, *rng.pick(&[0x01u8, 0x02, 0x03, 0x09]), 0xF7],
+                            3 => vec![0xF0, 0x7E, dev, 0x06, 0x01, 0xF7],
+                            4 => vec![0xF0, 0x7E, dev, 0x09, *rng.pick(&[0x01u8, 0x02, 0x03]), 0xF7],
+                            _ => vec![0xF0, 0x41, dev, 0x42, 0x12, 0x40, 0x00, 0x04, lsb, msb, 0xF7],
+                        };
+                        t.ctx.fault(F_SYSEX);
+                        for b in msg {
+                            wire.maybe_rt(rng, &mut t);
+                            t.push(Ev::Byte(b, false));
+                        }
+                        wire.running = 0;
                     }
                     2 => {
                         { let d__ = [0, rng.below(128) as u8]; wire.send(rng, &mut t, 0xB0 | ch, &d__) };
